@@ -119,7 +119,10 @@ def mk_key(ex, kind, mask=None):
     """mask: None -> each slice field is a symbolic Optional[int]; else a 3-bit number fixing which fields are None
     (the obligation is split into 8 instances only to balance the process pool)"""
     if kind == "int":
-        return ex.int("i")
+        i = ex.int("i")
+        if not ex.sym and (getattr(ex, "index_objects", False) or ex.values.get("__index_objects__")):
+            return symx.IndexObj(i)
+        return i
     if mask is None:
         start, stop, step = ex.opt_int("start"), ex.opt_int("stop"), ex.opt_int("step")
     else:
@@ -169,6 +172,12 @@ def apply(op, lst, key, new, k, is_ref):
         lst.extend(new)
     elif op == "iadd":
         lst += new
+    elif op == "iadd_self":
+        lst += lst
+    elif op == "extend_self":
+        lst.extend(lst)
+    elif op == "setslice_self":
+        lst[key] = lst
     elif op == "clear":
         lst.clear()
     elif op == "reverse":
@@ -224,7 +233,7 @@ def make_harness(op, n, m=0, use_validator=True, mask=None, factory=None, twins=
     (props/_owners.list_factory).  twins: every item, old or new, is a distinct object that compares EQUAL to all others, so
     'the contents changed' is a matter of identity and a replacement by an equal object still has to be announced."""
     keykind = {"set_int": "int", "del_int": "int", "insert": "int", "pop": "int",
-               "set_slice": "slice", "del_slice": "slice"}.get(op)
+               "set_slice": "slice", "del_slice": "slice", "setslice_self": "slice"}.get(op)
 
     def harness(ex):
         events = []
@@ -421,6 +430,26 @@ def obligations(tier, build):
                 for op in ("extend", "iadd"):
                     obs.append(Obligation("owned/%s/n=%d/m=%d" % (op, n, m), make_harness(op, n, m, factory=fac, twins=True),
                                           bounds={"n": n, "m": m}, leverage="choice feasibility only", **ocommon))
+    for label, fac_ in (("owned-anytrait", owners.list_factory(route="anytrait")), ("owned-added", owners.list_factory(added=True)),
+                        ("owned-added-anytrait", owners.list_factory(route="anytrait", added=True))):
+        for n in (0, 1, 2):
+            for op in ("set_int", "del_int", "insert", "pop", "append", "clear", "reverse", "imul"):
+                obs.append(Obligation("%s/%s/n=%d" % (label, op, n), make_harness(op, n, factory=fac_, twins=True),
+                                      bounds={"list length n": n, "container": "TraitListObject; " + label},
+                                      leverage="all integer arguments", **ocommon))
+    # the list itself as the operand
+    for label, kw_ in (("self-operand", dict(env=sym_env, stubs=STUBS)), ("owned-self-operand", dict(factory=fac, twins=True, **ocommon))):
+        hk = {k_: v_ for k_, v_ in kw_.items() if k_ in ("factory", "twins")}
+        ok = {k_: v_ for k_, v_ in kw_.items() if k_ not in ("factory", "twins")}
+        for n in range(0, 4):
+            for op in ("iadd_self", "extend_self"):
+                obs.append(Obligation("%s/%s/n=%d" % (label, op, n), make_harness(op, n, **hk),
+                                      bounds={"list length n": n, "operand": "the list itself"}, leverage="choice feasibility only", **ok))
+            if n <= 2:
+                for mask in [p_ for p_ in slice_parts() if (p_ & 7) in (0, 3, 7)]:
+                    obs.append(Obligation("%s/setslice_self/n=%d/%s" % (label, n, part_name(mask)), make_harness("setslice_self", n, mask=mask, **hk),
+                                          bounds={"list length n": n, "operand": "the list itself", "start/stop/step": "unbounded Int or None"},
+                                          leverage="all slice fields", max_paths=60000, **ok))
     falsy = owners.list_factory(falsy=True)
     for op in ("set_int", "append", "insert", "del_int"):
         obs.append(Obligation("owned-falsy/%s/n=1" % op, make_harness(op, 1, factory=falsy, twins=True),
@@ -430,4 +459,8 @@ def obligations(tier, build):
                           bounds={"list length n": "unbounded Int >= 0", "start, stop": "unbounded Int or None",
                                   "step": "-8..8 or None (constant divisor in the count closed form)"},
                           leverage="all of start/stop/length", max_paths=60000, **common))
+    import props._owners as owners_
+    obs.append(Obligation("sharing/list", owners_.sharing_harness("list"),
+                          bounds={"ways of handing a value on": owners_.SHARING_HOWS, "declarations": "x and y from ONE shared definition object"},
+                          leverage="choice feasibility only", stubs=[]))
     return obs
